@@ -690,7 +690,7 @@ theorem step_stmt {n : Nat} (ih : AllGood n) (st : Stmt) (hsz : sizeOf st < n + 
     -- the `finally` part: emits SETUPFINALLY (its position is the finally target), then the body
     have hfin : ∀ {s0 s : CState} {ps ts : List Nat} {Q : Unit → CState → Prop} (g : Nat → CM Unit),
         St s0 ps ts s →
-        (∀ fp s', St s0 ps (fp :: ts) s' → Sat (g fp) s' Q) →
+        (∀ fp s', St s0 ps (fp :: ts) s' → fp < s'.insts.size → s.insts.size ≤ s'.insts.size → Sat (g fp) s' Q) →
         Sat ((match f with
           | some (fpos, _, fbody) => do let p ← emit fpos OpSetupFinally; compileStmts fbody; Pure.pure p
           | none => emit pos OpSetupFinally) >>= g) s Q := by
@@ -698,15 +698,16 @@ theorem step_stmt {n : Nat} (ih : AllGood n) (st : Stmt) (hsz : sizeOf st < n + 
       cases f with
       | none =>
         simp only
-        apply st_emit_tgt_bind hst (by decide) (.inl (by opa)); intro s' hst' _
-        exact hg _ s' hst'
+        apply st_emit_tgt_bind hst (by decide) (.inl (by opa)); intro s' hst' hb
+        exact hg _ s' hst' hb.1.2 (Nat.le_of_lt hb.1.2)
       | some fv =>
         obtain ⟨f1, f2, f3⟩ := fv
         have hfb := ih.stmts f3 (by sz) hok.2
         simp only [bind_assoc, pure_bind]
-        apply st_emit_tgt_bind hst (by decide) (.inl (by opa)); intro s' hst' _
-        apply st_good_bind hfb hst'; intro _ s'' _ hst''
-        exact hg _ s'' hst''
+        apply st_emit_tgt_bind hst (by decide) (.inl (by opa)); intro s' hst' hb
+        apply st_good_bind_sz hfb hst'; intro _ s'' _ hst'' hsz
+        have := hb.1.2
+        exact hg _ s'' hst'' (by omega) (by omega)
     rw [compileStmt_eq]; simp only
     refine GoodP.bind (P := fun _ => True) (good_withBlock ?_) (fun _ _ => ?_)
     · intro s hs
@@ -717,8 +718,9 @@ theorem step_stmt {n : Nat} (ih : AllGood n) (st : Stmt) (hsz : sizeOf st < n + 
       cases c with
       | none =>
         simp only
-        apply hfin _ hst; intro fp s4 hst
+        apply hfin _ hst; intro fp s4 hst hfp _
         exact st_changeOperand hst (by simp) (argsIn_two (t1 := 0) (.inl rfl) (.inr (by simp))) (fun s' h => st_done h)
+          (by intro t1 t2 h; injection h with h1 h'; injection h' with h2 _; omega)
       | some cv =>
         obtain ⟨cpos, ident, c3, cbody⟩ := cv
         have hcb := ih.stmts cbody (by sz) hok.1.2
@@ -732,11 +734,13 @@ theorem step_stmt {n : Nat} (ih : AllGood n) (st : Stmt) (hsz : sizeOf st < n + 
         apply st_good_bind hid1 hst; intro _ s4 _ hst
         apply st_emit_bind hst (by decide) (by jmp) (.inl (by opa)); intro s5 hst
         apply st_curPos_bind hst; intro hst
-        apply st_good_bind (good_emit_ (by decide) (by opa)) hst; intro _ s7 _ hst
-        apply st_good_bind hid2 hst; intro _ s8 _ hst
-        apply st_good_bind hcb hst; intro _ s9 _ hst
-        apply hfin _ hst; intro fp s10 hst
-        apply st_changeOperand_bind hst (by simp) (argsIn_two (.inr (by simp)) (.inr (by simp))); intro s11 hst
+        -- SETUPCATCH is emitted AT the catch position: from here on it lies strictly inside the stream
+        apply st_emit__bind_sz hst (by decide) (.inl (by opa)); intro s7 hst h7
+        apply st_good_bind_sz hid2 hst; intro _ s8 _ hst h8
+        apply st_good_bind_sz hcb hst; intro _ s9 _ hst h9
+        apply hfin _ hst; intro fp s10 hst hfp h10
+        refine st_changeOperand_bind hst (by simp) (argsIn_two (.inr (by simp)) (.inr (by simp))) (fun s11 hst => ?_)
+          (by intro t1 t2 h; injection h with h1 h'; injection h' with h2 _; omega)
         exact st_changeOperand hst (by simp) (argsIn_one (.inr (by simp))) (fun s' h => st_done h)
     · have := good_tryIdx (· - 1)
       good
